@@ -11,6 +11,10 @@ for m in sorted(glob.glob(os.path.join(here, "seeded", "*", "meta.json"))):
     d = json.load(open(m))
     sid = d.get("seed_id", os.path.basename(os.path.dirname(m)))
     det = ", ".join(f"{c}: {'VIOLATION' if r['exit'] == 1 and r['violations'] else 'missed'}" for c, r in d.get("checks_run", {}).items())
+    conf0 = d.get("confirmed", {})
+    if not d.get("valid_seed") and conf0.get("demo_exit_with_patch") == 0:
+        # the change no longer breaks the property on the repaired tree (a later fix: commit removed what it relied on)
+        det = "no longer a violation (neutralised by a later fix of /repo); " + det.replace("missed", "silent, as it must be")
     summ = re.sub(r"\s+", " ", d.get("summary", ""))[:150].replace("|", "/")
     needs = re.sub(r"\s+", " ", d.get("needs", ""))[:110].replace("|", "/")
     conf = d.get("confirmed", {})
@@ -26,4 +30,4 @@ if start in s:
 else:
     s = s.replace("SEEDED_TABLE_PLACEHOLDER", block)
 open(p, "w").write(s)
-print(len(rows), "rows;", sum("missed" in r for r in rows), "missed")
+print(len(rows), "rows;", sum("missed" in r for r in rows), "missed;", sum("neutralised" in r for r in rows), "neutralised")
